@@ -151,6 +151,7 @@ func c13Body(r *Run) {
 	}
 	wrapped := mw(handler)
 
+	inRouter := false // inside a Router the context names topic, handler and subscriber (possibly with an empty name)
 	// checks one invocation of the wrapped chain
 	checkInv := func(iv *inv, outs []*message.Message, rerr error, wantTopic, wantHandler, wantSub string, newCalls []*PubCall) {
 		what := fmt.Sprintf("%s / %s / %s", c13ResultNames[kind], c13FilterNames[filter], iv.msg.UUID)
@@ -235,7 +236,7 @@ func c13Body(r *Run) {
 				middleware.PoisonedSubscriberKey: wantSub,
 			}
 			for k, v := range want {
-				if k == middleware.ReasonForPoisonedKey || v == "" {
+				if k == middleware.ReasonForPoisonedKey || (v == "" && !inRouter) {
 					continue
 				}
 				if pm.Metadata.Get(k) != v {
@@ -293,7 +294,17 @@ func c13Body(r *Run) {
 		return
 	}
 
-	// inside a running Router
+	// inside a running Router. The handler may have the empty name, may consume the poison topic itself (a "second chance"
+	// processor), and the scripted messages may carry poison keys from an earlier trip.
+	hname, inTopic := "the-handler", "in"
+	if t.Chance(1, 4) {
+		hname = ""
+	}
+	if t.Chance(1, 5) {
+		inTopic = "poison"
+	}
+	stale := t.Chance(1, 2)
+	inRouter = true
 	rig := newRouterRig(r, 30*time.Second)
 	closeInFlight := false
 	var sub message.Subscriber
@@ -304,7 +315,15 @@ func c13Body(r *Run) {
 		script = NewScriptedSubscriber(r, "sub")
 		script.MaxRedeliver = 4
 		for i := 0; i < 2; i++ {
-			script.Script["in"] = append(script.Script["in"], ScriptMsg{UUID: fmt.Sprintf("r-%d", i), Payload: "payload", Metadata: map[string]string{"user-key": "user-value"}})
+			md := map[string]string{"user-key": "user-value"}
+			if stale {
+				// the message has been through a poison queue before (requeued from the poison topic, say)
+				md[middleware.ReasonForPoisonedKey] = "stale reason"
+				md[middleware.PoisonedTopicKey] = "stale topic"
+				md[middleware.PoisonedHandlerKey] = "stale handler"
+				md[middleware.PoisonedSubscriberKey] = "stale subscriber"
+			}
+			script.Script[inTopic] = append(script.Script[inTopic], ScriptMsg{UUID: fmt.Sprintf("r-%d", i), Payload: "payload", Metadata: md})
 		}
 		sub = script
 	} else {
@@ -351,8 +370,8 @@ func c13Body(r *Run) {
 			}
 		}
 	}
-	h := rig.Router.AddHandler("the-handler", "in", sub, "out", outPub, handler)
-	h.AddMiddleware(observe("the-handler", "in"))
+	h := rig.Router.AddHandler(hname, inTopic, sub, "out", outPub, handler)
+	h.AddMiddleware(observe(hname, inTopic))
 	// in half of the scripted-subscriber runs a second handler (other name, topic and subscriber) uses the same PoisonQueue
 	var script2 *ScriptedSubscriber
 	if mode == 1 && filter != c13FilterAlternating && t.Chance(1, 2) {
@@ -432,7 +451,7 @@ func c13Body(r *Run) {
 		for i := 0; i < 2; i++ {
 			m := message.NewMessage(fmt.Sprintf("g-%d", i), []byte("payload"))
 			m.Metadata.Set("user-key", "user-value")
-			ps.Publish("in", m)
+			ps.Publish(inTopic, m)
 		}
 	}
 	// bounded: errors that are not moved to the poison queue would be redelivered for ever by GoChannel
